@@ -201,8 +201,7 @@ func (g *Generator) generateStructSchemaWithRefs(t reflect.Type) *openapi3.Schem
 	var required []string
 	requiredSet := make(map[string]bool)
 
-	for i := 0; i < t.NumField(); i++ {
-		field := t.Field(i)
+	for _, field := range jsonFields(t) {
 		if !field.IsExported() {
 			continue
 		}
@@ -453,8 +452,7 @@ func convertStructToSchemaWithDepthLimit(t reflect.Type, visited map[reflect.Typ
 	var required []string
 	requiredSet := make(map[string]bool)
 
-	for i := 0; i < t.NumField(); i++ {
-		field := t.Field(i)
+	for _, field := range jsonFields(t) {
 
 		if !field.IsExported() {
 			continue
@@ -571,8 +569,7 @@ func convertStructToSchemaWithVisited(t reflect.Type, visited map[reflect.Type]*
 	var required []string
 	requiredSet := make(map[string]bool) // Track required fields to avoid duplicates
 
-	for i := 0; i < t.NumField(); i++ {
-		field := t.Field(i)
+	for _, field := range jsonFields(t) {
 
 		// Skip unexported fields
 		if !field.IsExported() {
@@ -642,6 +639,59 @@ func convertMapToSchemaWithVisited(t reflect.Type, visited map[reflect.Type]*ope
 	}
 
 	return schema
+}
+
+// jsonFields returns the fields of struct type t the way encoding/json sees them: the fields of an
+// embedded struct (or pointer to struct) that carries no JSON name are promoted to t, recursively;
+// of two fields with the same JSON name the less deeply nested one wins. Fields promoted through an
+// embedded pointer are marked omitempty: they are absent when the pointer is nil.
+func jsonFields(t reflect.Type) []reflect.StructField {
+	type embedded struct {
+		t      reflect.Type
+		viaPtr bool
+	}
+	var fields []reflect.StructField
+	seenNames := make(map[string]bool)
+	seenTypes := map[reflect.Type]bool{t: true}
+	level := []embedded{{t: t}}
+	for len(level) > 0 {
+		var next []embedded
+		for _, e := range level {
+			for i := 0; i < e.t.NumField(); i++ {
+				field := e.t.Field(i)
+				if field.Anonymous {
+					ft := field.Type
+					viaPtr := e.viaPtr
+					if ft.Kind() == reflect.Ptr {
+						ft = ft.Elem()
+						viaPtr = true
+					}
+					jsonTag := field.Tag.Get("json")
+					if ft.Kind() == reflect.Struct && strings.Split(jsonTag, ",")[0] == "" && encodedTypeSchema(ft) == nil {
+						if !seenTypes[ft] {
+							seenTypes[ft] = true
+							next = append(next, embedded{t: ft, viaPtr: viaPtr})
+						}
+						continue
+					}
+				}
+				if !field.IsExported() {
+					continue
+				}
+				name := getJSONFieldName(field)
+				if name == "-" || seenNames[name] {
+					continue
+				}
+				seenNames[name] = true
+				if e.viaPtr && !strings.Contains(field.Tag.Get("json"), "omitempty") {
+					field.Tag = reflect.StructTag(fmt.Sprintf(`json:"%s,omitempty" `, name)) + field.Tag
+				}
+				fields = append(fields, field)
+			}
+		}
+		level = next
+	}
+	return fields
 }
 
 // getJSONFieldName extracts the JSON field name from struct field
@@ -958,8 +1008,7 @@ func (g *NestedRefGenerator) generateStructSchema(t reflect.Type) *openapi3.Sche
 	schema := openapi3.NewObjectSchema()
 	schema.Properties = make(openapi3.Schemas)
 
-	for i := 0; i < t.NumField(); i++ {
-		field := t.Field(i)
+	for _, field := range jsonFields(t) {
 
 		// Skip unexported fields
 		if !field.IsExported() {
